@@ -121,7 +121,8 @@ Definition insphere_det : Z -> Z -> Z -> Z -> Z -> Z -> Z -> Z -> Z -> Z -> Z ->
 (* fixed width instance: sign + w bit magnitude, bits above w are dropped *)
 Definition W_ORIENT : Z := 256.
 Definition W_INSPHERE : Z := 278.
-Definition wrap (w x : Z) : Z := Z.sgn x * (Z.abs x mod 2 ^ w).
+(* (the test only avoids a long division in the extracted program; both branches agree when it holds) *)
+Definition wrap (w x : Z) : Z := if Z.abs x <? 2 ^ w then x else Z.sgn x * (Z.abs x mod 2 ^ w).
 Definition wsub (w a b : Z) : Z := wrap w (a - b).
 Definition wmul (w a b : Z) : Z := wrap w (a * b).
 Definition wadd (w a b : Z) : Z := wrap w (a + b).
@@ -255,10 +256,14 @@ Definition orient3d_filter (a b c d : pt) : option Z :=
 Definition insphere_filter_dec (a b c d e : pt) : option Z :=
   filter_decision (insphere_filter (fpt_of a) (fpt_of b) (fpt_of c) (fpt_of d) (fpt_of e)).
 
+(* ... else return <exact>(...)  : the exact function is only called when the filter cannot decide *)
+Definition adaptive_of (f : option Z) (exact : unit -> Z) : Z :=
+  match f with Some s => s | None => exact tt end.
+
 Definition orient3d_adaptive (a b c d : pt) : Z :=
-  match orient3d_filter a b c d with Some s => s | None => orient3d_exact a b c d end.
+  adaptive_of (orient3d_filter a b c d) (fun _ => orient3d_exact a b c d).
 Definition insphere_adaptive (a b c d e : pt) : Z :=
-  match insphere_filter_dec a b c d e with Some s => s | None => insphere_exact a b c d e end.
+  adaptive_of (insphere_filter_dec a b c d e) (fun _ => insphere_exact a b c d e).
 
 (* ------------------------------------------------------------------------- *)
 (* permutations of the arguments (used by the statements and the driver) *)
